@@ -267,7 +267,8 @@ type result struct {
 	Value   bool   // the load produced a value (not an error)
 	Evals   int64
 	Trans   int64
-	Skipped bool // prelude refused: the call was not made
+	Skipped bool   // prelude refused: the call was not made
+	Obs     string // count-only structural observation (reader verdicts), no oracle attached
 }
 
 type envSlot struct {
@@ -509,6 +510,15 @@ func runReaders(text string, prod bool) (strictOK bool, sig string, evals int64,
 func (x *executor) run(k *kase, reuse int) (r result) {
 	text := k.text()
 	switch k.Mode {
+	case "read4":
+		// reader-only: the four readers, no limits configured, nothing evaluated
+		ok, sig, ev, c, g := runReaders(text, true)
+		r.Evals, r.Trans = ev, ev
+		r.Class, r.Got = c, g
+		r.Outcome = k.Space + ":" + sig
+		r.Nontriv = ok
+		r.Obs = sig
+		return r
 	case "read":
 		ok, sig, ev, c, g := runReaders(text, false)
 		r.Evals, r.Trans = ev, ev
